@@ -25,6 +25,9 @@ fn target_strategy_unvalidated() -> BoxedStrategy<Target> {
         5 => (0u8..4).prop_map(Target::MiniFatCell),
         3 => proptest::sample::select(vec![3u8, 4, 9, 9, 2]).prop_map(Target::Cycle),
         1 => (0u8..5, 0u8..17).prop_map(|(class, field)| Target::Entry { class, field }),
+        // file length: trailing garbage / zero sectors, truncated tail
+        2 => Just(Target::Extend),
+        1 => Just(Target::Truncate),
     ]
     .boxed()
 }
@@ -47,6 +50,7 @@ fn mut_script_strategy() -> BoxedStrategy<Vec<BOp>> {
     let bop = prop_oneof![
         8 => (any::<u16>(), vec(hop_mut_strategy(), 1..7)).prop_map(|(sel, script)| BOp::Stream { sel, script }),
         2 => vec(hop_mut_strategy(), 1..5).prop_map(|script| BOp::AllStreams { script }),
+        3 => (any::<u16>(), vec(hop_mut_strategy(), 0..4), any::<u8>(), vec(hop_mut_strategy(), 1..6)).prop_map(|(sel, pre, how, post)| BOp::StaleHandle { sel, pre, how, post }),
         5 => (any::<u16>(), any::<u8>(), d()).prop_map(|(parent, name, data)| BOp::CreateStream { parent, name, data }),
         2 => (any::<u16>(), any::<u8>()).prop_map(|(parent, name)| BOp::CreateStorage { parent, name }),
         5 => any::<u16>().prop_map(|sel| BOp::RemoveStream { sel }),
